@@ -31,6 +31,20 @@ ENV["PATH"] = "/opt/veriftools/go1.26.8/bin:" + ENV["PATH"]
 ENV.update(GOTOOLCHAIN="local", GOFLAGS="-mod=mod", GOPROXY="off")
 ENV.pop("GOWORK", None)
 
+def _trim_cache(limit_gb=40):
+    """Scratch copies live at fresh paths, so every run adds compiled packages to the Go build cache;
+    keep it from filling the disk."""
+    try:
+        d = subprocess.run(["go", "env", "GOCACHE"], capture_output=True, text=True, env=ENV).stdout.strip()
+        if not d:
+            return
+        kb = int(subprocess.run(["du", "-sk", d], capture_output=True, text=True).stdout.split()[0])
+        if kb > limit_gb * 1024 * 1024:
+            subprocess.run(["go", "clean", "-cache"], env=ENV)
+    except Exception:
+        pass
+
+
 _base = {}
 _base_lock = threading.Lock()
 
@@ -122,6 +136,7 @@ def run_case(case, repo, scratch_root):
 
 
 def main():
+    _trim_cache()
     ap = argparse.ArgumentParser()
     ap.add_argument("-j", type=int, default=8)
     ap.add_argument("-k", default="")
